@@ -532,7 +532,7 @@ CLAIMED.update({
                  "evhttp_uri_set_port exactly -1..65535; J — evhttp_uri_join evaluated on 1848 combinations of component shapes either refuses or produces a string that the RFC 3986 Appendix B split "
                  "takes apart into exactly the components that were set; S — every setter validates with the predicate the parser uses. Found and repaired: join wrote paths that parse back as an "
                  "authority or a scheme; set_port accepted ports above 65535. Declined: that evhttp_uri_parse_with_flags splits every input string as RFC 3986 does (in-place parser on a copy of the "
-                 "input; evaluating it would decide a sample of inputs), the UNIX_SOCKET and NONCONFORMANT forms.",
+                 "input; evaluating it would decide a sample of inputs), the UNIX_SOCKET and NONCONFORMANT forms. A (authority): parse_authority evaluated on 40 authority strings (in mutable byte memory, followed by a path or the terminator) x STRIP_BRACKETS: accepts exactly RFC 3986 authorities, stores exactly their userinfo / host / port, the host without brackets and the internal had-brackets bit iff asked, reads only the authority, writes only its allocations. H (host setter): evhttp_uri_set_host over host forms x public flags x prior state stores what evhttp_uri_join will write back as the host that was set, never touches public flags, a refused host changes nothing; evhttp_uri_set_flags keeps the internal bit; no other writer of uri->flags (two genuine defects fixed in /repo).",
          "note": STD_NOTE + ORDER_NOTE,
          "technique": "static analysis: exhaustive evaluation of the extracted validators over byte values (K6), decision table of evhttp_uri_join against the RFC 3986 split (K6), sibling agreement (K7)"},
 })
@@ -545,7 +545,7 @@ CLAIMED.update({
                  "values x every class subset of the flags: a well-formed value changes exactly the option's own field (clipped to the bounds in the code) and only when its class is enabled, a "
                  "malformed value is refused with -1 and changes nothing (strtol/strtod modelled with their C semantics); L - resolv_conf_parse_line evaluated on 17 line forms of resolv.conf(5) "
                  "x 5 flag sets performs exactly the documented actions (nameserver added, search domains in order, option/value pairs handed to the option table) and nothing for comments, "
-                 "unknown directives and missing arguments. Declined: memory safety of the file reader on arbitrary bytes, the hosts file, equality with a reference parser on all inputs.",
+                 "unknown directives and missing arguments. Declined: memory safety of the file reader on arbitrary bytes, the hosts file, equality with a reference parser on all inputs. D (search domains): search_postfix_add on domains with 0..3 leading dots stores the text without them, with its own length, reading only the caller's string and writing only its block.",
          "note": STD_NOTE + ORDER_NOTE,
          "technique": "static analysis: documentation/code table agreement (K7), decision tables by evaluation of the extracted option and line parsers on abstract strings and an abstract heap (K6)"},
 })
@@ -562,7 +562,7 @@ CLAIMED.update({
                  "the underlying input unless the filter input is full and the inbuf callback armed; be_filter_eventcb forwards each event exactly once and unchanged, and pushes pending input "
                  "through the filter in FINISHED mode before it announces EOF or a read error (two genuine defects fixed in /repo). M - inside the socket, pair and filter back ends only "
                  "the transport functions change a bufferevent's input/output buffers. Declined: equality of the delivered byte stream over histories of writes, toggles, flushes, schedules and "
-                 "faults (runtime values and orders), what user-supplied filter callbacks do, the TLS state machines.",
+                 "faults (runtime values and orders), what user-supplied filter callbacks do, the TLS handshake/renegotiation state machines. T (TLS): do_read / do_write evaluated over iovec layouts x scripts of TLS read/write answers (progress of 1, 2, all; want-read; want-write; closed) x rate-limit suspension: exactly the bytes the TLS read delivered are committed, in place and in order, closure is never reported with bytes of this call uncommitted; exactly the bytes the TLS write accepted are drained, no byte offered twice, no zero-length offer. D (deferred runners): a data callback's pending flag is cleared before the callback runs (the decision table of C19-runners, reused).",
          "note": STD_NOTE + ORDER_NOTE,
          "technique": "static analysis: decision tables by evaluation of the extracted transport callbacks over the finite domain of transfer results (K6), who-may-call over buffer-mutating calls (K2)"},
 })
